@@ -19,7 +19,17 @@ from lv import core
 def known_match(mod, entry, bucket):
     if hasattr(mod, 'known_match'):
         return mod.known_match(entry, bucket)
-    return bucket == entry['key']
+    if bucket == entry['key']:
+        return True
+    # 'xxx:quirk:a+b' is attributed to the recorded deviations a and b together
+    if ':quirk:' in bucket:
+        names = bucket.split(':quirk:')[1].split('+')
+        opened = OPEN_KEYS.get(entry['property'], set())
+        return entry['key'] in names and all(n in opened for n in names)
+    return False
+
+
+OPEN_KEYS = {}
 
 
 def main():
@@ -64,6 +74,7 @@ def main():
 def run(pid, mod, tier, seed, budget, t0):
     known = core.load_known(pid)
     open_known = [e for e in known if e.get('status') == 'open']
+    OPEN_KEYS[pid] = set(e['key'] for e in open_known)
     violations = []      # failures not covered by an open known finding
     known_hits = {}
     extra = {}
